@@ -33,6 +33,10 @@ pub struct Replay {
     /// test keeps process-global state): the replay then re-executes the batch prefix sequentially.
     #[serde(default)]
     pub prefix: Option<Prefix>,
+    /// configuration of the code under test that showed it: "release" or "checked" (debug assertions and
+    /// overflow checks on); `./check --replay` picks the matching binary
+    #[serde(default)]
+    pub build: String,
 }
 
 #[derive(Serialize, Deserialize, Clone, Debug)]
@@ -220,6 +224,7 @@ fn report_hang(prop: &str, opts: &Opts, origin: String, run: &IoRun) -> ! {
         original_size: size_of(run),
         run: run.clone(),
         prefix: None,
+        build: common::build_name().into(),
     };
     let path = opts.replay_dir.join(format!("{}-{}-no_termination.json", prop, opts.seed));
     let _ = std::fs::create_dir_all(&opts.replay_dir);
@@ -359,7 +364,7 @@ pub fn run_check(prop: &str, opts: &Opts) -> i32 {
         }
     };
     let quick = opts.tier == "quick";
-    println!("engine=iosim property={} tier={} VERIF_SEED={}", prop, opts.tier, opts.seed);
+    println!("engine=iosim property={} tier={} VERIF_SEED={} build={}", prop, opts.tier, opts.seed, common::build_name());
     let corpus = gen::Corpus::build(0xC0FFEE); // corpus is fixed: base records do not depend on VERIF_SEED
     let mut acc = Acc {
         cov: Coverage::default(),
@@ -408,7 +413,10 @@ pub fn run_check(prop: &str, opts: &Opts) -> i32 {
     let t_enum = t0.elapsed().as_secs_f64();
 
     // tier 2: seeded multi-fault runs
-    let n_seeded = opts.runs.unwrap_or_else(|| focus_runs(prop, quick));
+    let n_seeded = opts.runs.unwrap_or_else(|| {
+        let n = focus_runs(prop, quick);
+        if opts.amend_evidence { (n / 4).max(2000) } else { n }
+    });
     let batch_seed = sub_seed(opts.seed, &format!("iosim/{}", prop));
     let deadline = opts.max_seconds.map(|s| t0 + std::time::Duration::from_secs_f64(s));
     let mut seeded_done = 0u64;
@@ -470,6 +478,7 @@ pub fn run_check(prop: &str, opts: &Opts) -> i32 {
             original_size: size_of(&run),
             run: min.clone(),
             prefix: None,
+            build: common::build_name().into(),
         };
         let path = opts
             .replay_dir
@@ -568,7 +577,7 @@ pub fn run_check(prop: &str, opts: &Opts) -> i32 {
 
     // reach probes: a probe stuck at zero is a harness defect, not a verdict
     let mut missing = Vec::new();
-    if exit == simcore::EXIT_OK && opts.runs.is_none() && opts.max_seconds.is_none() {
+    if exit == simcore::EXIT_OK && opts.runs.is_none() && opts.max_seconds.is_none() && !opts.amend_evidence {
         for p in required_probes(prop) {
             if acc.cov.probes.get(*p).copied().unwrap_or(0) == 0 {
                 missing.push(*p);
@@ -644,7 +653,35 @@ pub fn run_check(prop: &str, opts: &Opts) -> i32 {
         violations,
         known_findings_seen: acc.known_seen.iter().cloned().collect(),
     };
-    if let Err(e) = simcore::evidence::write(&opts.evidence_path(prop), &ev) {
+    if opts.amend_evidence {
+        let path = opts.evidence_path(prop);
+        let amended = std::fs::read_to_string(&path)
+            .ok()
+            .and_then(|t| serde_json::from_str::<serde_json::Value>(&t).ok())
+            .and_then(|mut doc| {
+                let covv = doc.get_mut("coverage")?.as_object_mut()?;
+                covv.insert(
+                    "checked_build_pass".into(),
+                    json!({
+                        "build": "relcheck profile: release optimisation with debug assertions and overflow checks on",
+                        "evaluations": cov.evaluations,
+                        "enumeration_cases": n_enum,
+                        "seeded_runs": seeded_done,
+                        "distinct_nontrivial": cov.distinct_nontrivial,
+                        "violations": violations,
+                        "wall_s": wall,
+                    }),
+                );
+                if violations > 0 {
+                    doc["violations"] = json!(violations.max(doc["violations"].as_u64().unwrap_or(0)));
+                }
+                std::fs::write(&path, serde_json::to_string_pretty(&doc).ok()?).ok()
+            });
+        if amended.is_none() {
+            eprintln!("HARNESS-ERROR: cannot amend evidence file {}", path.display());
+            return simcore::EXIT_HARNESS;
+        }
+    } else if let Err(e) = simcore::evidence::write(&opts.evidence_path(prop), &ev) {
         eprintln!("HARNESS-ERROR: cannot write evidence: {}", e);
         return simcore::EXIT_HARNESS;
     }
